@@ -100,6 +100,45 @@ def snapshot_state(mods):
         d = _data_attrs(o)
         snap.append((o, {k: (v, copy.deepcopy(v)) for k, v in d.items()}))
     _STATE["owners"] = snap
+    # state kept by functions: mutable closure cells (a memo table of a decorator), function attributes (f.cache = {}) and
+    # functools caches (lru_cache / cache) of every function and method defined in the PyXAB modules
+    funcs, seen = [], set()
+
+    def add(f):
+        f = getattr(f, "__func__", f)
+        if id(f) in seen:
+            return
+        seen.add(id(f))
+        if hasattr(f, "cache_clear") and callable(getattr(f, "cache_clear", None)):
+            funcs.append(("lru", f, None))
+            add(getattr(f, "__wrapped__", None))
+            return
+        if not callable(f) or not hasattr(f, "__code__"):
+            return
+        for cell in (f.__closure__ or ()):
+            try:
+                v = cell.cell_contents
+            except ValueError:
+                continue
+            if isinstance(v, (list, dict, set)):
+                funcs.append(("cell", v, copy.deepcopy(v)))
+            elif callable(v):
+                add(v)
+        for k, v in list(vars(f).items()) if hasattr(f, "__dict__") else ():
+            if isinstance(v, (list, dict, set)):
+                funcs.append(("cell", v, copy.deepcopy(v)))
+        add(getattr(f, "__wrapped__", None))
+
+    for o in owners:
+        for v in list(vars(o).values()):
+            if isinstance(v, (staticmethod, classmethod)):
+                v = v.__func__
+            if callable(v) and not isinstance(v, type):
+                try:
+                    add(v)
+                except Exception:  # noqa
+                    pass
+    _STATE["funcs"] = funcs
 
 
 def restore_state():
@@ -107,6 +146,19 @@ def restore_state():
     import copy
     if _STATE["owners"] is None:
         return
+    for kind, obj, pristine in _STATE.get("funcs") or ():
+        if kind == "lru":
+            try:
+                obj.cache_clear()
+            except Exception:  # noqa
+                pass
+        else:
+            fresh = copy.deepcopy(pristine)
+            obj.clear()
+            if isinstance(obj, list):
+                obj.extend(fresh)
+            else:
+                obj.update(fresh)
     for o, rec in _STATE["owners"]:
         for k in list(_data_attrs(o)):
             if k not in rec:
